@@ -72,6 +72,16 @@ def cases(tier, seed, args):
         for i in range(4 if q else 24):
             out.append(dict(t='perm_mm', kind='gmm', L=[], K=2, D=2 + i % 2, N=60, wca=(-1,), iterations=[3, 5][i % 2],
                             seed=int(rng.integers(1 << 30)), sam=False, saliency=False, regime='badscale'))
+        # a class that the activity mask switches off everywhere (not the last class); exactly tied classes
+        for i in range(8 if q else 48):
+            if i % 2 == 0:
+                out.append(dict(t='perm_mm', kind='cacgmm', L=[2] if i % 4 else [], K=3 + (i // 4) % 2, D=3, N=int(rng.integers(16, 24)), wca=(-1,),
+                                iterations=[1, 2, 3][i % 3], seed=int(rng.integers(1 << 30)), sam=True, sam_silent=int((i // 2) % 2), saliency=False,
+                                regime='regular'))
+            else:
+                kind = ['gcacgmm', 'cacgmm', 'vmfcacgmm', 'gmm'][(i // 2) % 4]
+                out.append(dict(t='perm_mm', kind=kind, L=[2] if kind in ml.INTEGRATION else [], K=3, D=3, N=int(rng.integers(16, 24)), wca=(-1,),
+                                iterations=[1, 3, 10][(i // 2) % 3], seed=int(rng.integers(1 << 30)), sam=False, saliency=False, regime='exacttie'))
         # hard start in which one class is empty (not the last one): its scatter is exactly zero in the first M-step
         for i in range(6 if q else 36):
             kind = ['cacgmm', 'gcacgmm', 'cacgmm', 'cacgmm', 'cacgmm', 'cwmm'][i % 6]   # (an empty vMF class has no mean: outside the domain)
@@ -215,10 +225,10 @@ def _gain_mm(case):
         # history: the trainer used for run B has fitted other data before
         call(ml.fit, kind, data, init, 1, opts, trainer=trainer_b)
     ma, ea = call(ml.fit, kind, data, init, case['iterations'], opts)
-    if ((case['seed'] // 3) % 2 or (kind in ml.INTEGRATION and case['seed'] % 2)) and not single:
+    if ((case['seed'] // 3) % 2 or (kind in ml.INTEGRATION + ('cbmm', 'cwmm') and case['seed'] % 2)) and not single:
         # run B gets its observations as a permuted-axes view of a (D, ..., N) buffer (how STFT code usually hands them over)
         yv = data_b['y']
-        if (case['seed'] // 2) % 2 and kind not in ml.INTEGRATION:
+        if (case['seed'] // 2) % 2 and kind not in ml.INTEGRATION + ('cbmm',):
             data_b = dict(data_b, y=np.ascontiguousarray(np.moveaxis(yv, -1, 0)).transpose(*range(1, yv.ndim), 0))
         else:
             data_b = dict(data_b, y=np.asfortranarray(yv))       # e.g. a (D, T, F) STFT seen through .transpose(2, 1, 0)
@@ -331,7 +341,7 @@ def _perm_mm(case):
     rng = np.random.default_rng(case['seed'])
     kind, L, K, D, N = case['kind'], case['L'], case['K'], case['D'], case['N']
     regime = case['regime']
-    data = ml.make_data(rng, kind, L, K, D, N, regime='separable' if (regime not in ('regular', 'overlap') and kind != 'cbmm') else 'regular')
+    data = ml.make_data(rng, kind, L, K, D, N, regime='separable' if (regime not in ('regular', 'overlap', 'exacttie') and kind != 'cbmm') else 'regular')
     if regime == 'overlap':
         real = kind in ('gmm', 'vmfmm')
         proto = rng.normal(size=(K, D)) + (0 if real else 1j * rng.normal(size=(K, D)))
@@ -360,6 +370,10 @@ def _perm_mm(case):
                 hard[..., 2 + j] = False
                 hard[..., list(pair), 2 + j] = True
         init = hard.astype(case['init_dtype'])
+    if regime == 'exacttie':
+        init = ml.make_init(rng, L, K, N)
+        init[..., 1, :] = init[..., 0, :]                # two classes start bit-identical
+        init = init / init.sum(-2, keepdims=True)
     if regime == 'neartie':
         init = ml.make_init(rng, L, K, N)
         init[..., 1, :] = init[..., 0, :] * (1 + 1e-3 * rng.uniform(-1, 1, size=init[..., 0, :].shape))
@@ -372,6 +386,9 @@ def _perm_mm(case):
         sam = rng.random((*L, K, N)) < 0.8
         sam[..., 0] = True
         sam[..., 1] = False            # an observation where no class is active
+        if case.get('sam_silent') is not None:
+            sam[..., case['sam_silent'], :] = False      # one class is switched off for every observation
+            sam[..., 1] = sam[..., 1] | False
         if case.get('sam_tie'):
             # two classes share the largest activity count (the others are switched off on a few more observations)
             sam[..., :2, 2:] = True
